@@ -1,9 +1,10 @@
 """C17 - mixin RPCs are exposed exactly as configured in the service YAML.
 
-spec      : spec/Mixins.tla  (SelectMixins, CallMixin(m, kind), CallOwn(m, kind); invariants = the property clause by clause;
-            eleven spec mutants that TLC must reject)
+spec      : spec/Mixins.tla  (SelectMixins, CallMixin(svc, m, kind), CallOwn(svc, m, kind); invariants = the property clause by
+            clause over every client of every service; twelve spec mutants that TLC must reject)
 spec->code: TLC emits one case per configuration (YAML `apis` subset x http-rule assignment from a pairwise-covering family x
-            API with/without its own IAM RPCs x transports x add-iam-methods x template set) with the predicted mixin method
+            API with/without its own IAM RPCs (single service, or two services with the declaring one first / last) x transports x
+            add-iam-methods x template set) with the predicted mixin method
             names per client and the predicted observables of every call.  For every configuration the REAL generator emits a
             library for a small carrier API; harness/drivers/mixins.py imports it in a fresh interpreter, lists the mixin
             methods on the sync and asyncio clients and calls each one over sync gRPC, asyncio gRPC and REST against the loopback
@@ -22,12 +23,12 @@ from .. import core, gen, tlc
 
 PKG = 'acme.mx.v1'
 SERVICE = 'Carrier'
-OWN_GRPC_PREFIX = f'/{PKG}.{SERVICE}/'
+OWN_GRPC_PREFIX = f'/{PKG}.'          # any service of the carrier API itself
 OWN_REST_PREFIX = '/own/'
 IAM = ('SetIamPolicy', 'GetIamPolicy', 'TestIamPermissions')
-MUTANTS = ['no_yield', 'ignore_apis', 'expose_without_rule', 'async_lacks_one', 'legacy_sync_only', 'wrong_path',
+MUTANTS = ['no_yield', 'last_service_decides', 'ignore_apis', 'expose_without_rule', 'async_lacks_one', 'legacy_sync_only', 'wrong_path',
            'raw_response', 'header_name_for_iam', 'no_header', 'rest_wrong_verb', 'rest_drops_body']
-CALL_FIELDS = ('m', 'kind', 'via', 'path', 'reqtype', 'resptype', 'hkey', 'hval', 'verb', 'body', 'extra')
+CALL_FIELDS = ('svc', 'm', 'kind', 'via', 'path', 'reqtype', 'resptype', 'hkey', 'hval', 'verb', 'body', 'extra')
 ASPECT = dict(via='own-rpc', path='path', reqtype='request-type', resptype='response-type', hkey='routing-header',
               hval='routing-header', verb='verb', body='body', extra='body')
 
@@ -37,19 +38,24 @@ def module_of(tmpl):
     return 'acme.mx.v1' if tmpl == 'ads' else 'acme.mx_v1'
 
 
-def carrier_api(own):
-    """one service with two unary methods (http rules); when `own`, it declares the three IAM RPCs itself, with the
-    google.iam.v1 types and http rules under /own/ (so that the projection can tell them from the mixin rules)."""
+def carrier_api(case):
+    """service Carrier with two unary methods (http rules); when `own`, it declares the three IAM RPCs itself, with the
+    google.iam.v1 types and http rules under /own/ (so that the projection can tell them from the mixin rules).  In the
+    two-service layouts a second service Other (ordinary RPCs only) is declared after / before it: case['services'] is the
+    declaration order."""
     msgs = [dict(name='Thing', fields=[dict(name='name'), dict(name='count', type='int32')]),
             dict(name='GetThingRequest', fields=[dict(name='name')])]
     methods = [dict(name='GetThing', **{'in': 'GetThingRequest', 'out': 'Thing'}, http=[dict(verb='get', uri='/v1/{name=things/*}')]),
                dict(name='MakeThing', **{'in': 'Thing', 'out': 'Thing'}, http=[dict(verb='post', uri='/v1/things', body='*')])]
-    if own:
+    if case['own']:
         for m, out in (('SetIamPolicy', 'Policy'), ('GetIamPolicy', 'Policy'), ('TestIamPermissions', 'TestIamPermissionsResponse')):
             methods.append(dict(name=m, **{'in': f'google.iam.v1.{m}Request', 'out': f'google.iam.v1.{out}'},
                                 http=[dict(verb='post', uri='/own/v1/{resource=things/*}:' + m[0].lower() + m[1:], body='*')]))
+    other = [dict(name='GetWidget', **{'in': 'GetThingRequest', 'out': 'Thing'}, http=[dict(verb='get', uri='/v1/{name=widgets/*}')]),
+             dict(name='MakeWidget', **{'in': 'Thing', 'out': 'Thing'}, http=[dict(verb='post', uri='/v1/widgets', body='*')])]
+    by_name = {SERVICE: dict(name=SERVICE, methods=methods), 'Other': dict(name='Other', methods=other)}
     return dict(files=[dict(name='acme/mx/v1/mx.proto', package=PKG, messages=msgs,
-                            services=[dict(name=SERVICE, methods=methods)])])
+                            services=[by_name[sv] for sv in case['services']])])
 
 
 def yaml_of(case):
@@ -75,19 +81,25 @@ def options_of(case):
 def cfg_key(c):
     api = ''.join(a.split('.')[-1][0] for a in c['apis']) or '-'          # O / I / L
     rules = ''.join(str(c['rulecode'][r['rpc']]) for r in c['table'])
-    return (f"{c['tmpl']}/apis={api}/rules={rules}/{'own' if c['own'] else 'legacy' if c['legacy'] else 'plain'}/"
+    mode = {'single': 'own', 'own_first': 'own-first', 'own_last': 'own-last'}[c['layout']] if c['own'] else \
+        'legacy' if c['legacy'] else 'plain'
+    return (f"{c['tmpl']}/apis={api}/rules={rules}/{mode}/"
             f"{'+'.join(c['transports'])}")
 
 
 def origin(case, rpc):
-    return 'legacy' if case['legacy'] and rpc in IAM else 'own' if case['own'] and rpc in IAM else 'yaml'
+    if case['legacy'] and rpc in IAM:
+        return 'legacy'
+    if case['own'] and rpc in IAM:
+        return {'single': 'own', 'own_first': 'own-first', 'own_last': 'own-last'}[case['layout']]
+    return 'yaml'
 
 
 # ---- running (worker processes) -------------------------------------------------------------------------
 def _work(job):
     """generate with the REAL generator, materialise, drive.  Returns dict(key, gen_error | obs | drv_error)."""
     key, case = job
-    api = carrier_api(case['own'])
+    api = carrier_api(case)
     api['yaml'] = yaml_of(case)
     kinds = (['grpc', 'grpc_asyncio'] if 'grpc' in case['transports'] else []) + (['rest'] if 'rest' in case['transports'] else [])
     with gen.scratch() as work:
@@ -99,7 +111,7 @@ def _work(job):
             return dict(key=key, gen_error=f'{type(e).__name__}: {str(e)[:500]}')
         root = gen.materialise(res, os.path.join(work, 'out'))
         ok, out, err = gen.run_driver('harness.drivers.mixins', root, dict(
-            module=module_of(case['tmpl']), service=SERVICE, service_snake='carrier', kinds=kinds, rpcs=case['table']), timeout=600)
+            module=module_of(case['tmpl']), services=[dict(service=sv, service_snake=sv.lower()) for sv in case['services']], kinds=kinds, rpcs=case['table']), timeout=600)
         if not ok:
             return dict(key=key, drv_error=err[-2500:])
         return dict(key=key, obs=out)
@@ -122,10 +134,10 @@ def project_header(headers):
     return '&'.join(k for k, _ in pairs), '&'.join(v for _, v in pairs)
 
 
-def project_call(case, rec):
+def project_call(case, svc, rec):
     """driver record -> the call record of Mixins.tla."""
     row = next(r for r in case['table'] if r['rpc'] == rec['rpc'])
-    ev = dict(ev='call', m=rec['rpc'], kind=rec['kind'], via='-', path='-', reqtype='-', resptype='-', hkey='-', hval='-',
+    ev = dict(ev='call', svc=svc, m=rec['rpc'], kind=rec['kind'], via='-', path='-', reqtype='-', resptype='-', hkey='-', hval='-',
               verb='-', body='-', extra='-')
     sent = rec.get('sent') or []
     if rec.get('raised') or len(sent) != 1:
@@ -154,68 +166,75 @@ def project_call(case, rec):
 
 
 # ---- comparison (spec -> code) ---------------------------------------------------------------------------
-def vkey(case, kind, rpc, aspect):
+def vkey(case, svc, kind, rpc, aspect):
+    """kind: grpc | grpc_asyncio | rest for calls, sync | asyncio for presence; clients of the second service are marked Other."""
     if case['tmpl'] == 'ads' and aspect == 'routing-header':
         snake = next(r['snake'] for r in case['table'] if r['rpc'] == rpc)
         return f'ads:{snake}:routing-header'
-    return f"{case['tmpl']}:{origin(case, rpc)}:{kind}:{rpc}:{aspect}"
+    where = kind if svc == SERVICE else f'{svc}.{kind}'
+    return f"{case['tmpl']}:{origin(case, rpc)}:{where}:{rpc}:{aspect}"
 
 
 def compare(case, present, events):
-    """returns (presence diffs [(key, text)], per-call diffs {(m, kind): [(key, text)]}, unexpected [(key, text)])."""
+    """returns (presence diffs [(key, text)], per-call diffs {(svc, m, kind): [(key, text)]}, unexpected [(key, text)])."""
     pres = []
-    for client in case['clients']:
-        want, got = case['expect']['present'][client], present[client]
-        for rpc in want:
-            if rpc not in got:
-                pres.append((f"{case['tmpl']}:{origin(case, rpc)}:{client}:{rpc}:not-exposed",
-                             f'{client} client lacks {rpc}; predicted {want}, found {got}'))
-        for rpc in got:
-            if rpc not in want:
-                pres.append((f"{case['tmpl']}:{origin(case, rpc)}:{client}:{rpc}:exposed-unexpectedly",
-                             f'{client} client exposes {rpc}; predicted {want}, found {got}'))
-    predicted = {(c['m'], c['kind']): c for c in case['expect']['calls']}
-    skip = {(c['m'], c['kind']) for c in case['expect']['outofscope']}
-    observed = {(e['m'], e['kind']): e for e in events}
+    for svc in case['services']:
+        for client in case['clients']:
+            want, got = case['expect']['present'][svc][client], present[svc][client]
+            for rpc in want:
+                if rpc not in got:
+                    pres.append((vkey(case, svc, client, rpc, 'not-exposed'),
+                                 f'{svc} {client} client lacks {rpc}; predicted {want}, found {got}'))
+            for rpc in got:
+                if rpc not in want:
+                    pres.append((vkey(case, svc, client, rpc, 'exposed-unexpectedly'),
+                                 f'{svc} {client} client exposes {rpc}; predicted {want}, found {got}'))
+    predicted = {(c['svc'], c['m'], c['kind']): c for c in case['expect']['calls']}
+    skip = {(c['svc'], c['m'], c['kind']) for c in case['expect']['outofscope']}
+    observed = {(e['svc'], e['m'], e['kind']): e for e in events}
     calls, extra = {}, []
-    for mk, p in predicted.items():
-        o = observed.get(mk)
+    for smk, p in predicted.items():
+        sv, m, kd = smk
+        o = observed.get(smk)
         if o is None:
-            calls[mk] = [(vkey(case, mk[1], mk[0], 'not-callable'), f'no call of {mk[0]} over {mk[1]} was possible')]
+            calls[smk] = [(vkey(case, sv, kd, m, 'not-callable'), f'no call of {m} on {sv} over {kd} was possible')]
             continue
         d = []
         if o['via'] == 'error':
-            d.append((vkey(case, mk[1], mk[0], 'raised'), f"{mk[0]} over {mk[1]}: {o['path']}"))
+            d.append((vkey(case, sv, kd, m, 'raised'), f"{sv}.{m} over {kd}: {o['path']}"))
         elif o['via'] != p['via']:      # the API's own RPC was reached instead of the mixin, or the other way round
-            d.append((vkey(case, mk[1], mk[0], 'own-rpc'),
-                      f"{mk[0]} over {mk[1]}: reached {o['via']} ({o['path']}), predicted {p['via']} ({p['path']})"))
+            d.append((vkey(case, sv, kd, m, 'own-rpc'),
+                      f"{sv}.{m} over {kd}: reached {o['via']} ({o['path']}), predicted {p['via']} ({p['path']})"))
         else:
             seen = set()
-            for f in CALL_FIELDS[3:]:
+            for f in CALL_FIELDS[4:]:
                 if o[f] != p[f] and ASPECT[f] not in seen:
                     seen.add(ASPECT[f])
-                    d.append((vkey(case, mk[1], mk[0], ASPECT[f]),
-                              f"{mk[0]} over {mk[1]}: {f} = {o[f]!r}, predicted {p[f]!r}"))
+                    d.append((vkey(case, sv, kd, m, ASPECT[f]), f"{sv}.{m} over {kd}: {f} = {o[f]!r}, predicted {p[f]!r}"))
         if d:
-            calls[mk] = d
-    for mk, o in observed.items():
-        if mk not in predicted and mk not in skip:
-            extra.append((vkey(case, mk[1], mk[0], 'unexpected-call'), f'{mk[0]} over {mk[1]} is callable ({o}) but not predicted'))
+            calls[smk] = d
+    for smk, o in observed.items():
+        if smk not in predicted and smk not in skip:
+            extra.append((vkey(case, smk[0], smk[2], smk[1], 'unexpected-call'),
+                          f'{smk[0]}.{smk[1]} over {smk[2]} is callable ({o}) but not predicted'))
     return pres, calls, extra
 
 
 def evaluate(cases_of_cfg, obs, k):
     """pick the case for the client classes the library has; project; compare."""
-    clients = ['sync'] + (['asyncio'] if obs['present']['asyncio'] is not None else [])
+    per = obs['services']
+    first = per[cases_of_cfg[0]['services'][0]]
+    clients = ['sync'] + (['asyncio'] if first['present']['asyncio'] is not None else [])
     case = next((c for c in cases_of_cfg if c['clients'] == clients), None)
     if case is None:
         raise core.MachineryError(f'no case for clients {clients} in {k}')
-    present = {c: project_present(case, obs['present'][c]) for c in clients}
-    skip = {(c['m'], c['kind']) for c in case['expect']['outofscope']}
-    events = [project_call(case, rec) for rec in obs['calls']]
-    events = [e for e in events if (e['m'], e['kind']) not in skip]
-    order = {(r['rpc'], kd): (i, j) for i, r in enumerate(case['table']) for j, kd in enumerate(('grpc', 'grpc_asyncio', 'rest'))}
-    events.sort(key=lambda e: order[(e['m'], e['kind'])])
+    present = {sv: {c: project_present(case, per[sv]['present'].get(c)) for c in clients} for sv in case['services']}
+    skip = {(c['svc'], c['m'], c['kind']) for c in case['expect']['outofscope']}
+    events = [project_call(case, sv, rec) for sv in case['services'] for rec in per[sv]['calls']]
+    events = [e for e in events if (e['svc'], e['m'], e['kind']) not in skip]
+    order = {(sv, r['rpc'], kd): (h, i, j) for h, sv in enumerate((SERVICE, 'Other')) for i, r in enumerate(case['table'])
+             for j, kd in enumerate(('grpc', 'grpc_asyncio', 'rest'))}
+    events.sort(key=lambda e: order[(e['svc'], e['m'], e['kind'])])
     return case, present, events, compare(case, present, events)
 
 
@@ -225,7 +244,7 @@ def keys_of(diffs):
 
 
 def trace_cfg(case):
-    return dict(apis=case['apis'], rulecode=case['rulecode'], own=case['own'], legacy=case['legacy'], tmpl=case['tmpl'],
+    return dict(apis=case['apis'], rulecode=case['rulecode'], own=case['own'], layout=case['layout'], legacy=case['legacy'], tmpl=case['tmpl'],
                 transports=case['transports'], clients=case['clients'])
 
 
@@ -237,7 +256,9 @@ def pick_quick(keys, by_key, rnd, n=36):
     corners = [
         find(lambda c: len(c['apis']) == 3 and full(c, 1) and not c['own'] and not c['legacy'] and c['transports'] == ['grpc', 'rest']),
         find(lambda c: len(c['apis']) == 3 and full(c, 2) and not c['own'] and not c['legacy'] and c['transports'] == ['grpc', 'rest']),
-        find(lambda c: len(c['apis']) == 3 and full(c, 1) and c['own'] and c['transports'] == ['grpc', 'rest']),
+        find(lambda c: len(c['apis']) == 3 and full(c, 1) and c['own'] and c['layout'] == 'single' and c['transports'] == ['grpc', 'rest']),
+        find(lambda c: len(c['apis']) == 3 and full(c, 1) and c['own'] and c['layout'] == 'own_first' and c['transports'] == ['grpc', 'rest']),
+        find(lambda c: len(c['apis']) == 3 and full(c, 1) and c['own'] and c['layout'] == 'own_last' and c['transports'] == ['grpc', 'rest']),
         find(lambda c: len(c['apis']) == 3 and full(c, 1) and c['legacy'] and c['transports'] == ['grpc', 'rest']),
         find(lambda c: len(c['apis']) == 0 and full(c, 0) and c['legacy'] and c['transports'] == ['grpc']),
         find(lambda c: len(c['apis']) == 0 and full(c, 1) and not c['own'] and not c['legacy'] and c['transports'] == ['grpc', 'rest']),
@@ -308,25 +329,26 @@ def main(chk, args):
         case, present, events, (pres, calls, extra) = evaluate(by_key[k], out['obs'], k)
         ncalls += len(events)
         chk.case(k, nontrivial=bool(case['expect']['calls']) or case['legacy'] or case['own'])
-        replay = dict(cfg=k, yaml=yaml_of(case), options=options_of(case), own_iam_rpcs=case['own'], predicted=case['expect'],
+        replay = dict(cfg=k, yaml=yaml_of(case), options=options_of(case), own_iam_rpcs=case['own'], services=case['services'], predicted=case['expect'],
                       observed=dict(present=present, calls=events))
         for vk, text in pres + extra:
             note(vk, k, text, replay)
-        for mk, ds in calls.items():
+        for _, ds in calls.items():
             for vk, text in ds:
                 note(vk, k, text, replay)
-        select = dict(ev='select', sync=present['sync'], asyncio=present.get('asyncio', []))
+        select = dict(ev='select', present={sv: dict(sync=present.get(sv, {}).get('sync', []), asyncio=present.get(sv, {}).get('asyncio', []))
+                                            for sv in (SERVICE, 'Other')})
         cfg = trace_cfg(case)
         if pres:
             suspects.setdefault(pres[0][0], (k, dict(cfg=cfg, events=[select] + events)))
             continue
-        bad = set(calls) | {(e['m'], e['kind']) for e in events if (e['m'], e['kind']) not in
-                            {(c['m'], c['kind']) for c in case['expect']['calls']}}
-        good.append((k, dict(cfg=cfg, events=[select] + [e for e in events if (e['m'], e['kind']) not in bad])))
+        ident = lambda e: (e['svc'], e['m'], e['kind'])
+        predicted_ids = {(c['svc'], c['m'], c['kind']) for c in case['expect']['calls']}
+        bad = set(calls) | {ident(e) for e in events if ident(e) not in predicted_ids}
+        good.append((k, dict(cfg=cfg, events=[select] + [e for e in events if ident(e) not in bad])))
         for e in events:
-            mk = (e['m'], e['kind'])
-            if mk in bad:
-                vk = calls[mk][0][0] if mk in calls else vkey(case, mk[1], mk[0], 'unexpected-call')
+            if ident(e) in bad:
+                vk = calls[ident(e)][0][0] if ident(e) in calls else vkey(case, e['svc'], e['kind'], e['m'], 'unexpected-call')
                 suspects.setdefault(vk, (k, dict(cfg=cfg, events=[select, e])))
         if len(chk.samples) < 3 and case['expect']['calls']:
             chk.sample(dict(cfg=k, present=present, calls=events[:4]))
@@ -374,17 +396,18 @@ def main(chk, args):
         chk.tlc_runs.append(dict(label='MixinsTrace, steps that disagree with the prediction (one representative per key)',
                                  runs=len(outs), rejected=nrej))
     chk.rule = ('one case = one configuration (template set / YAML apis subset / http rule per mixin RPC: absent, rule 1, rule 2 / '
-                'plain, own IAM RPCs, add-iam-methods / transports) generated with the real generator and driven over sync gRPC, '
+                'plain, own IAM RPCs (one service, or two services with the declaring one first / last), add-iam-methods / transports) generated with the real generator and driven over sync gRPC, '
                 'asyncio gRPC and REST; evaluations = configurations + calls observed at the loopback servers; non-trivial = at '
                 'least one predicted call or own/legacy set; distinct by configuration')
     chk.assumptions += [
         'loopback grpc / http servers; requests decoded with the installed google.longrunning / google.iam.v1 / google.cloud.location '
         'pb2 descriptors (the input descriptors of the mixin APIs)',
-        'own IAM RPCs = the carrier service declares all three of SetIamPolicy/GetIamPolicy/TestIamPermissions; own together with '
+        'own IAM RPCs = service Carrier declares all three of SetIamPolicy/GetIamPolicy/TestIamPermissions; in the two-service layouts '
+        'a second service Other (ordinary RPCs) is declared after / before it and every client of both services is driven; own together with '
         'add-iam-methods is not generated (the two clauses of the property contradict each other there)',
         'with add-iam-methods the IAM methods have no http rule: REST calls of them are outside the property',
         'http rules have a single binding with body "*" or no body; rule sets form an orthogonal array of strength 2 over '
-        '{absent, rule 1, rule 2}^10 plus all-on (thorough); quick = 9 fixed corners (one of them Ads) + seeded sample',
+        '{absent, rule 1, rule 2}^10 plus all-on (thorough); quick = 11 fixed corners (one Ads, two with two services) + seeded sample',
         'the Ads template set and REST-only libraries have no asyncio client: the property is read over the clients that exist',
     ]
     chk.extra['configurations'] = len(keys)
